@@ -8,14 +8,11 @@ import UnytProofs.Lemmas.C14Chunk09  -- build order only: at most four chunks ar
 namespace Unyt.C14
 
 /-- every listed name of chunk 13 (four slices of 64 rows) is read by the string route and by the
-    three attribute routes as the independent reference reads it (guard: word-prefixed °C) -/
+    three attribute routes as the independent reference reads it -/
 theorem names_slice_13_0 : namesSliceOk 13 0 = true := by decide +kernel
 theorem names_slice_13_1 : namesSliceOk 13 1 = true := by decide +kernel
 theorem names_slice_13_2 : namesSliceOk 13 2 = true := by decide +kernel
 theorem names_slice_13_3 : namesSliceOk 13 3 = true := by decide +kernel
-
-/-- every excluded name of chunk 13 really is unusable as a unit string -/
-theorem exclusions_chunk_13 : exclusionsChunkOk 13 = true := by decide +kernel
 
 /-- prefix spellings 3·13 … 3·13+2 (symbols, then word forms) are rejected on every
     non-prefixable spelling (three slices of 110 spelling rows) -/
